@@ -349,6 +349,8 @@ class Runner:
                 try:
                     ans = app.send_request(req, timeout=timeout)
                     r, hbh, e2e = "answer", ans.header.hop_by_hop_identifier, ans.header.end_to_end_identifier
+                    if ans.header.command_code in (257, 280, 282):      # a base-protocol message handed over as "the answer"
+                        r = "base:%d" % ans.header.command_code
                 except NotRoutable:
                     r = "NotRoutable"
                 except TimeoutError:
@@ -553,6 +555,12 @@ class Gen:
             pend = [m for m in vc.tx if m["cmd"] == cmd and m["req"]]
             if pend and rng.random() < 0.8:
                 hbh, e2e = pend[-1]["hbh"], pend[-1]["e2e"]
+            elif not pend and kind == "dwa" and (hbh + e2e) % 2 == 0:
+                # an unsolicited watchdog answer bearing the identifiers of an application request the node has in flight here
+                # (no draw from the random stream: every other history stays as it was)
+                papp = [m for m in vc.tx if m["cmd"] == "APP" and m["req"]]
+                if papp:
+                    hbh, e2e = papp[-1]["hbh"], papp[-1]["e2e"]
             # (an answer is an answer whatever its result: every fourth one reports an error; derived from the identifiers so that
             #  the random stream - and with it every other history - stays as it was)
             return M(cmd, False, hbh, e2e, oh=claimed if rng.random() < 0.9 else "", rc=2001 if (hbh + e2e) % 4 else 3004)
